@@ -1,7 +1,260 @@
-import Atomman.Prelude
-open Atomman
+import Atomman.C12
+open Atomman Atomman.C12
 
-/-- stub: replaced when the C12 model is built. -/
-def handleC12 (_toks : List String) : String := err "op"
+/-! line-protocol driver of the C12 model: real ops at `F := Rat`, Stroh ops at `F := Cx Rat`
+    (complex numbers on the wire as `re im` pairs).  See harness/props/c12.py for the ops. -/
+
+namespace C12Drv
+
+abbrev Q := Rat
+abbrev C := Cx Rat
+
+def takeN (n : Nat) (xs : List Q) : Option (List Q × List Q) :=
+  if xs.length < n then none else some (xs.take n, xs.drop n)
+
+def take1 (xs : List Q) : Option (Q × List Q) :=
+  match xs with
+  | a :: r => some (a, r)
+  | [] => none
+
+def takeNat (xs : List Q) : Option (Nat × List Q) :=
+  match xs with
+  | a :: r => if a.den = 1 ∧ 0 ≤ a.num then some (a.num.toNat, r) else none
+  | [] => none
+
+def takeBool (xs : List Q) : Option (Bool × List Q) :=
+  match xs with
+  | a :: r => if a = 1 then some (true, r) else if a = 0 then some (false, r) else none
+  | [] => none
+
+/-! tables: a function value is tabulated into an `Array` (data, computed once where it is bound) and read
+    back through a partial application that captures the array — a `def` returning a closure over a local
+    `let` would be eta-expanded by the compiler and recompute the table on every access. -/
+section tab
+variable {F : Type} [Zero F]
+def arrVec (a : Array F) : Vec F := fun i => a.getD i.val 0
+def arrMat (a : Array F) : Mat F := fun i j => a.getD (3 * i.val + j.val) 0
+def arrMat6 (a : Array F) : Fin 6 → Fin 6 → F := fun i j => a.getD (6 * i.val + j.val) 0
+def arrTen4 (a : Array F) : Ten4 F := fun i j k l => a.getD (27 * i.val + 9 * j.val + 3 * k.val + l.val) 0
+def arr6 (a : Array F) : Fin 6 → F := fun i => a.getD i.val 0
+def tabVec (v : Vec F) : Array F := #[v 0, v 1, v 2]
+def tabMat (M : Mat F) : Array F := (matToList M).toArray
+def tabTen4 (T : Ten4 F) : Array F :=
+  (fin3.flatMap fun i => fin3.flatMap fun j => fin3.flatMap fun k => fin3.map fun l => T i j k l).toArray
+end tab
+
+def takeVec (xs : List Q) : Option (Vec Q × List Q) := do
+  let (a, r) ← takeN 3 xs
+  let arr := a.toArray
+  pure (arrVec arr, r)
+
+def takeMat (xs : List Q) : Option (Mat Q × List Q) := do
+  let (a, r) ← takeN 9 xs
+  let arr := a.toArray
+  pure (arrMat arr, r)
+
+def takeMat6 (xs : List Q) : Option ((Fin 6 → Fin 6 → Q) × List Q) := do
+  let (a, r) ← takeN 36 xs
+  let arr := a.toArray
+  pure (arrMat6 arr, r)
+
+def pairs : List Q → List C
+  | a :: b :: r => ⟨a, b⟩ :: pairs r
+  | _ => []
+
+def takeCs (n : Nat) (xs : List Q) : Option (List C × List Q) := do
+  let (a, r) ← takeN (2 * n) xs
+  pure (pairs a, r)
+
+def flatC (l : List C) : List Q := l.flatMap fun z => [z.re, z.im]
+
+def toC (q : Q) : C := ⟨q, 0⟩
+def vecC (v : Vec Q) : Vec C :=
+  let arr : Array C := #[toC (v 0), toC (v 1), toC (v 2)]
+  arrVec arr
+
+def done (r : Option String) : String := r.getD (err "format")
+
+def fin6Vec (l : List C) : Fin 6 → C := arr6 l.toArray
+
+/-- the six modes from `p` (6), `A` (6x3, row-major), `L` (6x3). -/
+def modeTable (p A L : List C) : Array (Mode C) :=
+  (List.range 6).toArray.map fun a =>
+    ⟨p.getD a 0, arrVec ((A.drop (3 * a)).take 3).toArray, arrVec ((L.drop (3 * a)).take 3).toArray⟩
+def modeAt (ms : Array (Mode C)) : Fin 6 → Mode C := fun a => ms.getD a.val ⟨0, fun _ => 0, fun _ => 0⟩
+
+structure Problem where
+  s : Setup C
+  μ : Fin 6 → Mode C
+  k : Fin 6 → C
+
+/-- `Cij(36) m(3) n(3) b(3) p(6c) A(18c) L(18c) k(6c)` -/
+def takeProblem (xs : List Q) : Option (Problem × List Q) := do
+  let (c, r) ← takeMat6 xs
+  let (m, r) ← takeVec r
+  let (n, r) ← takeVec r
+  let (b, r) ← takeVec r
+  let (p, r) ← takeCs 6 r
+  let (A, r) ← takeCs 18 r
+  let (L, r) ← takeCs 18 r
+  let (k, r) ← takeCs 6 r
+  let carr : Array C := tabTen4 (cijkl fun i j => toC (c i j))
+  let ms := modeTable p A L
+  let karr := k.toArray
+  pure (⟨⟨arrTen4 carr, vecC m, vecC n, vecC b⟩, modeAt ms, arr6 karr⟩, r)
+
+def conjModeQ (μ : Mode C) : Mode C := ⟨Cx.conj μ.p, fun i => Cx.conj (μ.A i), fun i => Cx.conj (μ.L i)⟩
+
+def modeEq (a b : Mode C) : Bool :=
+  a.p == b.p && fin3.all (fun i => a.A i == b.A i) && fin3.all (fun i => a.L i == b.L i)
+
+def vecCs (v : Vec C) : List C := fin3.map v
+def matCs (M : Mat C) : List C := fin3.flatMap fun i => fin3.map fun j => M i j
+
+def handle (toks : List String) : String :=
+  match toks with
+  | [] => err "op"
+  | op :: rest =>
+    match parseRats? rest with
+    | none => err "format"
+    | some xs =>
+      match op with
+      -- __mn_check for array-valued axes: `mn tol cart m n`
+      | "mn" => done do
+          let (tol, r) ← take1 xs
+          let (cart, r) ← takeBool r
+          let (m, r) ← takeVec r
+          let (n, _) ← takeVec r
+          if !(unitOk tol m) || (cart && !(cartAligned tol m)) then pure (err "assert") else
+          if !(unitOk tol n) || (cart && !(cartAligned tol n)) then pure (err "assert") else
+          if !(mnAccept tol m n) then pure (err "assert") else pure "1"
+      -- axes_check: `axes tol rtol axes(9) norms(3)`
+      | "axes" => done do
+          let (tol, r) ← take1 xs
+          let (rtol, r) ← take1 r
+          let (ax, r) ← takeMat r
+          let (nm, _) ← takeVec r
+          let uarr := tabMat (unitAxes ax nm)
+          let u := arrMat uarr
+          if !(axesOrthOk tol rtol u) then pure (err "value") else
+          if !(axesRightOk tol rtol u) then pure (err "value") else
+          pure (showRats (matToList u))
+      -- __find_transform: `ft m n nAxis xiAxis`
+      | "ft" => done do
+          let (m, r) ← takeVec xs
+          let (n, r) ← takeVec r
+          let (na, r) ← takeVec r
+          let (xa, _) ← takeVec r
+          pure (showRats (matToList (findTransform m n na xa)))
+      -- rotate C and the Burgers vector: `orient tol T(9) vects(9) Cij(36) b(3)`
+      | "orient" => done do
+          let (tol, r) ← take1 xs
+          let (T, r) ← takeMat r
+          let (vects, r) ← takeMat r
+          let (c, r) ← takeMat6 r
+          let (b, _) ← takeVec r
+          let c' := orientC tol T c
+          pure (showRats ((fin6.flatMap fun i => fin6.map fun j => c' i j) ++ vecToList (orientB tol T vects b)))
+      -- Stroh.solve on the eigen-solver's output: `stroh tol rtol pi <problem> sk(6c)`
+      | "stroh" => done do
+          let (tol, r) ← take1 xs
+          let (rtol, r) ← take1 r
+          let (pi, r) ← take1 r
+          let (P, r) ← takeProblem r
+          let (skl, _) ← takeCs 6 r
+          let skarr := skl.toArray
+          let sk := arr6 skarr
+          let s := P.s
+          let nnarr := tabMat s.nn
+          let invarr := tabMat (inv3 (arrMat nnarr))
+          let nnInv : Mat C := arrMat invarr
+          let conj := modeEq (P.μ 1) (conjModeQ (P.μ 0)) && modeEq (P.μ 3) (conjModeQ (P.μ 2))
+                        && modeEq (P.μ 5) (conjModeQ (P.μ 4))
+          let acc := strohAccept tol rtol P.μ P.k sk
+          let top := fin6.flatMap fun a => vecCs (eigResTop s nnInv (P.μ a))
+          let bot := fin6.flatMap fun a => vecCs (eigResBot s nnInv (P.μ a))
+          let sext := fin6.flatMap fun a => vecCs (matVec (sextic s (P.μ a).p) (P.μ a).A)
+          let lres := fin6.flatMap fun a => vecCs fun i =>
+            (P.μ a).L i + sum3 fun j => (s.nm i j + (P.μ a).p * s.nn i j) * (P.μ a).A j
+          let kres := fin6.map fun a => kOf (P.μ a) - P.k a
+          let skres := fin6.map fun a => sk a * sk a - P.k a
+          let cAL := matCs fun i j => chkAL P.μ P.k i j - kron i j
+          let cAA := matCs (chkAA P.μ P.k)
+          let cLL := matCs (chkLL P.μ P.k)
+          let cST := fin6.flatMap fun a => fin6.map fun b => chkST P.μ sk a b - kron6 a b
+          let ktarr := tabMat (kTensor Cx.I P.μ P.k)
+          let Kt := arrMat ktarr
+          let jump := vecCs fun i => dispJump (toC pi) Cx.I s P.μ P.k i - s.b i
+          let kcarr := tabMat (kClean tol Kt)
+          let Kc := arrMat kcarr
+          let bq : Vec Q := fun i => (s.b i).re
+          pure (showRats ([if conj then 1 else 0, if acc then 1 else 0]
+            ++ flatC (top ++ bot ++ sext ++ lres ++ kres ++ skres ++ cAL ++ cAA ++ cLL ++ cST ++ matCs Kt ++ jump)
+            ++ matToList Kc ++ [kCoeff Kc bq, preln pi Kc bq]))
+      -- fields at points: `field pi <problem> npts [x(3) lnη(6c)]*`
+      | "field" => done do
+          let (pi, r) ← take1 xs
+          let (P, r) ← takeProblem r
+          let (np, r) ← takeNat r
+          let (body, _) ← takeN (15 * np) r
+          let piC := toC pi
+          let out := (List.range np).flatMap fun q =>
+            let row := (body.drop (15 * q)).take 15
+            let x : Vec C := vecC (arrVec (row.take 3).toArray)
+            let lnarr := (pairs (row.drop 3)).toArray
+            let ln := arr6 lnarr
+            (fin6.map fun a => eta P.s (P.μ a) x)
+              ++ vecCs (dispAt piC Cx.I P.s P.μ P.k ln)
+              ++ matCs (strainAt piC Cx.I P.s P.μ P.k x)
+              ++ matCs (stressAt piC Cx.I P.s P.μ P.k x)
+          pure (showRats (flatC out))
+      -- isotropic closed form: `iso pi m n b mu nu npts [pos(3) atn logv]*`
+      | "iso" => done do
+          let (pi, r) ← take1 xs
+          let (m, r) ← takeVec r
+          let (n, r) ← takeVec r
+          let (b, r) ← takeVec r
+          let (mu, r) ← take1 r
+          let (nu, r) ← take1 r
+          let (np, r) ← takeNat r
+          let (body, _) ← takeN (5 * np) r
+          let s : IsoSetup Q := ⟨m, n, b, mu, nu⟩
+          let out := (List.range np).flatMap fun q =>
+            let row := (body.drop (5 * q)).take 5
+            let posarr := (row.take 3).toArray
+            let pos : Vec Q := arrVec posarr
+            let atn := row.getD 3 0
+            let logv := row.getD 4 0
+            let x := s.x pos
+            let y := s.y pos
+            let r2 := x * x + y * y
+            let th := thetaOf pi x y atn
+            let log : Q → Q := fun a => if a = r2 then logv else 0
+            [x, y, th] ++ vecToList (isoDisplacement log pi th s pos) ++ matToList (isoStrainLab pi s pos)
+              ++ matToList (isoStressLab pi s pos)
+          pure (showRats out)
+      -- isotropic K tensor, Poisson ratio, K_coeff, preln: `isok tol pi m n b mu bulk`
+      | "isok" => done do
+          let (tol, r) ← take1 xs
+          let (pi, r) ← take1 r
+          let (m, r) ← takeVec r
+          let (n, r) ← takeVec r
+          let (b, r) ← takeVec r
+          let (mu, r) ← take1 r
+          let (bulk, _) ← take1 r
+          let nu := Gen.isoNu bulk mu
+          let s : IsoSetup Q := ⟨m, n, b, mu, nu⟩
+          let l := matToList (isoKTensor s)
+          let k0arr := l.toArray
+          let K0 := arrMat k0arr
+          let big := listMax (l.headD 0) l
+          let kcarr := tabMat fun i j => chop tol big (K0 i j)
+          let Kc : Mat Q := arrMat kcarr
+          pure (showRats ([nu] ++ matToList Kc ++ [kCoeff Kc b, preln pi Kc b]))
+      | _ => err "op"
+
+end C12Drv
+
+def handleC12 (toks : List String) : String := C12Drv.handle toks
 
 def main : IO Unit := runDriver handleC12
